@@ -220,6 +220,19 @@ func symIndexArray(a array, idx value) value {
 }
 
 // concKey: a map key with symbolic parts is enumerated
+// concKeyT: like concKey, with the key's Go type known (a symbolic integer key is enumerated)
+func concKeyT(k value, t types.Type) value {
+	if s, ok := k.(sym); ok && s.bits > 0 {
+		if _, _, isInt := intInfo(t); isInt {
+			return mkInt(t, cur.concretize(s))
+		}
+	}
+	if s, ok := k.(sym); ok && s.bits == 0 {
+		return cur.concretize(s) == 1
+	}
+	return concKey(k)
+}
+
 func concKey(k value) value {
 	switch x := k.(type) {
 	case sym:
@@ -238,6 +251,7 @@ func symMapKey(m value, k value) value {
 	if !ok {
 		return concKey(k)
 	}
+	_ = ks
 	var keys []string
 	switch mm := m.(type) {
 	case map[value]value:
